@@ -11,23 +11,32 @@ from harness.common import sim
 from harness.props import sspkt_util as U
 
 PROP = "C36"
-LEAN_MODULES = ["LunaVerif.Props.C36"]
+LEAN_MODULES = ["LunaVerif.Props.C36", "LunaVerif.Lemmas.C36CrcBounds", "LunaVerif.Lemmas.C36Frame",
+                "LunaVerif.Lemmas.C36RoundTrip"]
 DRIVER = "Driver/C36.lean"
-REQUIRED_THEOREMS = ["tx_emits_frame_partial", "stall_invariant", "header_words", "delayed_aborts_with_edb",
+REQUIRED_THEOREMS = ["tx_emits_frame", "tx_emits_frame_complete", "rx_of_tx", "dppTail_eq_pack", "runPkt_done_only_last",
+                     "done_is_transfer_to_idle", "dpr_of_frame", "hrx_of_frame",
+                     "tx_emits_frame_partial", "stall_invariant", "header_words", "delayed_aborts_with_edb",
                      "crc32_immediately_after_last_byte", "payload_words_in_order", "dpp_frame_all_lengths"]
 RULE = ("tx/loop cases: sequences of header packets (transaction / link management / ITP types, data headers, the "
         "0b11000 type that the 4-bit data test also takes) with payload lengths 0..17, 1020..1024 and random (every "
         "residue mod 4), delayed data headers, PHY ready patterns (always / 50 % / 10 % with long stalls / 90 %); "
         "rand cases: all inputs random every cycle")
-ASSUMPTIONS = ["stream contract of data_sink: from the cycle DW3 is transferred until the word flagged `last` has been "
-               "accepted the producer presents valid words (all four lanes valid except in the last word) and advances "
-               "only on data_sink.ready; the header inputs are held from `generate` (they are latched then)"]
-PARTIAL = ("tx_emits_frame is proved in pieces — ready-pattern reduction (stall_invariant), header words for every "
-           "header, abort, zero-length / one-word payloads, payloads of >= 2 words of every length and trailing-byte count "
-           "(dpp_frame_all_lengths), symbol content of the closing words (crc32_immediately_after_last_byte) — but the "
-           "pieces are not glued into one statement over a single history with an arbitrary ready pattern and a symbolic "
-           "frame(hdr, payload).  rx_of_tx is a co-simulated round trip of the real transmitter into the real receivers, "
-           "not a theorem.")
+ASSUMPTIONS = ["tx_emits_frame: stream contract of data_sink as the decidable predicate `obeys` (Lemmas/C36Frame.lean), required "
+               "only for a data header that is not delayed: in every cycle from the one after `generate` up to `done` the "
+               "producer presents the first payload word not yet accepted (valid mask 15 and last=0 for full words, the "
+               "low-lane mask of the 1..4 remaining bytes and last=1 for the final word) and advances exactly on "
+               "data_sink.ready; for a zero-length payload data_sink.valid = 0 in the cycle DWORD 3 is transferred; the header "
+               "fields are presented with `generate` in IDLE (they are latched then) and fit their widths; payload bytes < 256. "
+               "No assumption on source.ready, on the header inputs / generate after the first cycle, or on data_sink once "
+               "the last word has been accepted",
+               "rx_of_tx: header type = DATA (dw0[0:5] = 0b01000), not delayed, payload length = the header's length field "
+               "(11 bit); words arrive back to back (sink.valid = 1 on every word; the receivers' indifference to invalid "
+               "words in between is C37 run_gap / C40 independent_of_invalid_words); expected_sequence = the header's "
+               "sequence number; receivers start from reset"]
+PARTIAL = ("rx_of_tx is proved for the frame's words arriving back to back at the receivers; with invalid words "
+           "interleaved (what a stalling PHY produces on a ready-gated channel, as in the `loop` co-simulation) it is not "
+           "composed into one theorem here (payload phase: C40 independent_of_invalid_words; header phase: C37 run_gap).")
 
 
 def gen_cases(tier, rng):
